@@ -128,7 +128,7 @@ def wrapper_facts(pkg, wrapper, cfunc, cy, py):
         raise Untranslatable(f"{pkg}/numerics.pyx: no def {wrapper}")
     body = funcs[wrapper].replace("\\\n", " ")
     sig = balanced(body, body.index("("))
-    bufparams, intparams = [], []
+    bufparams, intparams, order = [], [], []
     for p in split_top(sig):
         p = " ".join(p.split())
         m = re.match(r"ndarray\[(\w+), ndim=(\d)(, mode='c')?\] (\w+)( not None)?$", p)
@@ -136,10 +136,18 @@ def wrapper_facts(pkg, wrapper, cfunc, cy, py):
             if m.group(1) not in cy:
                 raise Untranslatable(f"unknown buffer type {m.group(1)}")
             bufparams.append((m.group(4), cy[m.group(1)], int(m.group(2)), bool(m.group(3))))
+            order.append((m.group(4), "buf"))
             continue
         m = re.match(r"(int|long) (\w+)$", p)
         if m:
             intparams.append(m.group(2))
+            order.append((m.group(2), "int"))
+            continue
+        m = re.match(r"(float|double|\w+_t) (\w+)$", p)
+        if m:
+            order.append((m.group(2), "float"))
+            continue
+        raise Untranslatable(f"{wrapper}: parameter {p!r}")
     flat = " ".join(body.split())
     allocs = []
     for m in re.finditer(r"(\w+) = np\.(zeros|empty)\( ?\(([^()]*)\), dtype=(\w+)\)", flat):
@@ -169,8 +177,11 @@ def wrapper_facts(pkg, wrapper, cfunc, cy, py):
     # every np.zeros/np.empty of the wrapper must have been read
     if len(re.findall(r"np\.(zeros|empty)\(", flat)) != len(allocs):
         raise Untranslatable(f"{wrapper}: an allocation could not be read")
+    # explicit shape tests of the wrapper: `<buf>.shape[k] != <int param>` (in an `if ...: raise`)
+    cychecks = [(a, int(k), n) for a, k, n in re.findall(r"(\w+)\.shape\[(\d)\] != (\w+)", flat)
+                if re.search(r"if \(?[^:]*" + re.escape(f"{a}.shape[{k}] != {n}") + r"[^:]*\)?: raise", flat)]
     return dict(bufparams=bufparams, intparams=intparams, allocs=allocs, ptrargs=ptrargs,
-                scalarargs=scalarargs)
+                scalarargs=scalarargs, order=order, cychecks=cychecks)
 
 
 # --------------------------------------------------------------------------- C routines
@@ -372,6 +383,52 @@ def census():
 
 # --------------------------------------------------------------------------- output
 
+CYORDER, CYCHECKS = {}, {}
+
+
+def py_wrappers():
+    """Generated/StructC20Py.lean: where the Python methods take the size arguments from"""
+    sys.path.insert(0, os.path.dirname(os.path.abspath(__file__)))
+    import c20_py
+    try:
+        ws = c20_py.analyse(SRC, CYORDER)
+        ld = c20_py.line_dist(SRC) + c20_py.range_terms(SRC)
+    except c20_py.Untranslatable as e:
+        raise Untranslatable(str(e))
+    out = ["/- GENERATED by translate/gen_C20.py (c20_py.py) from the current /repo working tree — do not edit. -/",
+           "set_option linter.unusedVariables false",
+           "namespace Pyunicorn.Generated.StructC20Py", "",
+           "/-- one integer argument of a raw-pointer Cython wrapper as the calling Python method passes it:",
+           "(Cython parameter, kind, text, pointer position, axis).  kind `arr`: equal to axis `axis` of the",
+           "array passed at pointer position `pos`, as that array is when it is passed; `self`: the attribute",
+           "`self.<text>` of the object; `param`: a scalar parameter of the method; `other`: anything else -/",
+           "abbrev PySizeRow := String × String × String × Nat × Nat", ""]
+    for w in ws:
+        pre = w["pre"]
+        out.append(f"/-! ### `{w['rel']}:{w['line']}  {w['cls']}.{w['meth']}` → `{w['cy']}` -/")
+        out.append(f"def {pre}_pysizes : List PySizeRow :=\n  [" + ", ".join(
+            f"({lit(n)}, {lit(k)}, {lit(t)}, {p}, {a})" for n, k, t, p, a in w["sizes"]) + "]")
+        out.append("/-- arrays passed at the pointer positions with their symbolic shapes -/")
+        out.append(f"def {pre}_pyarrays : List (String × List String) :=\n  [" + ", ".join(
+            f"({lit(b)}, [" + ", ".join(lit(d) for d in dims) + "])" for b, dims in w["arrays"]) + "]")
+        out.append("/-- `if a.shape != b.shape: raise` before the call, as pairs of pointer positions -/")
+        out.append(f"def {pre}_pychecks : List (Nat × Nat) := [" + ", ".join(
+            f"({a}, {b})" for a, b in w["checks"]) + "]")
+        out.append("/-- `if <buf>.shape[k] != <int param>: raise` inside the Cython wrapper -/")
+        out.append(f"def {pre}_cychecks : List (String × Nat × String) := [" + ", ".join(
+            f"({lit(a)}, {k}, {lit(n)})" for a, k, n in CYCHECKS[pre]) + "]")
+        out.append("/-- other methods of the class calling this one: (method, number of arguments passed) -/")
+        out.append(f"def {pre}_forwarders : List (String × Nat) := [" + ", ".join(
+            f"({lit(m)}, {n})" for m, n in w["forwarders"]) + "]")
+        out.append(f"def {pre}_int_defaults : List (String × Int) := [" + ", ".join(
+            f"({lit(k)}, {v})" for k, v in sorted(w["defaults"].items())) + "]")
+        out.append("")
+    out += ld
+    out.append("end Pyunicorn.Generated.StructC20Py")
+    with open(os.path.join(os.path.dirname(OUT), "StructC20Py.lean"), "w") as fh:
+        fh.write("\n".join(out) + "\n")
+
+
 def main():
     cy, py = type_tables()
     out = ["/- GENERATED by translate/gen_C20.py from the current /repo working tree — do not edit. -/",
@@ -385,6 +442,7 @@ def main():
            "  guard : Prop", ""]
     for pre, pkg, wrapper, cfunc in ROUTINES:
         w = wrapper_facts(pkg, wrapper, cfunc, cy, py)
+        CYORDER[pre], CYCHECKS[pre] = w["order"], w["cychecks"]
         sites, params, cptrs, cscalars = c_sites(pkg, cfunc)
         out.append(f"/-! ### `{pkg}/_ext/numerics.pyx: {wrapper}` → `src_numerics.c: {cfunc}` -/")
         ip = " ".join(w["intparams"])
@@ -546,6 +604,7 @@ def pyx_kernels():
 try:
     main()
     pyx_kernels()
+    py_wrappers()
 except Untranslatable as e:
     print("gen_C20: cannot translate:", e, file=sys.stderr)
     sys.exit(1)
